@@ -689,17 +689,23 @@ where
                                 };
                                 client.consts(p, const_req).await
                             });
-                            if let Err(err) = future::try_join_all(const_futs).await
-                                && let Some(url) = policy_cl.output
-                            {
-                                let _ = client
-                                    .output(
-                                        url,
-                                        Err(OutputError::SendConstsError {
-                                            source: Box::new(err),
-                                        }),
-                                    )
-                                    .await;
+                            if let Err(err) = future::try_join_all(const_futs).await {
+                                if let Some(url) = policy_cl.output {
+                                    let _ = client
+                                        .output(
+                                            url,
+                                            Err(OutputError::SendConstsError {
+                                                source: Box::new(err),
+                                            }),
+                                        )
+                                        .await;
+                                } else {
+                                    error!(%err, "error when sending consts");
+                                }
+                                // The other parties can not compile the program without these
+                                // constants: stop the state machine, which releases the permit.
+                                let _ = cmd_sender.send(PolicyCmd::Stop).await;
+                                return;
                             }
                             // returns an error if the state machine is dropped, nothing to do
                             let _ = client_send.send(client);
